@@ -309,7 +309,30 @@ func init() {
 	add("C14", ruleR14_8)
 	add("C16", ruleR16_10, ruleR16_11, ruleR16_12)
 	add("C14", ruleR16_12)
-	add("C19", ruleR19_8)
+	add("C19", ruleR19_8, ruleR03_17)
+	// round 8
+	add("C13", ruleR13_8)
+	add("C05", ruleR13_8)
+	add("C16", ruleR16_13)
+	add("C12", ruleR16_13)
+	add("C18", ruleR18_8)
+	add("C20", ruleR09_13)
+	add("C09", ruleR09_13)
+	add("C05", ruleR09_13)
+	add("C01", ruleR13_5)
+	add("C02", ruleR13_5)
+	add("C04", ruleR05_3, ruleR13_5)
+	add("C08", ruleR12_5)
+	add("C09", ruleR06_4)
+	add("C10", ruleR11_1)
+	add("C11", ruleR06_1full)
+	add("C12", ruleR08_5)
+	add("C14", ruleR01_2, ruleR11_3)
+	add("C15", ruleR06_1full, ruleR08_3)
+	add("C16", ruleR13_3)
+	add("C19", ruleR12_3, ruleR03_4)
+	add("C20", ruleR12_4)
+	add("C03", ruleR03_17)
 	add("C03", ruleR19_8)
 	add("C16", ruleR09_11)
 	add("C08", ruleR09_11)
